@@ -1,4 +1,6 @@
-CONSTANT MaxBase = 150
+CONSTANTS
+  CapHit = 10
+  CapMiss = 8
 INIT TInit
 NEXT TStep
 CHECK_DEADLOCK FALSE
